@@ -77,10 +77,15 @@ func scanSpecDirs(dirs []string, scanFn scanSpecFunc) error {
 		err = filepath.Walk(dir, func(path string, info os.FileInfo, err error) error {
 			// for initial stat failure Walk calls us with nil info
 			if info == nil {
-				if errors.Is(err, fs.ErrNotExist) {
+				// A directory we can't scan (or a vanished entry) must not
+				// prevent scanning the rest of the directories.
+				if errors.Is(err, fs.ErrNotExist) || path == dir {
 					return nil
 				}
-				return err
+				if ext := filepath.Ext(path); ext != ".json" && ext != ".yaml" {
+					return nil
+				}
+				return scanFn(path, priority, nil, err)
 			}
 			// first call from Walk is for dir itself, others we skip
 			if info.IsDir() {
